@@ -751,6 +751,65 @@ pub fn same_number_sweep(ctx: &Ctx, mode: Mode, total: &mut Part) -> Value {
   json!({"search": "same-number", "operand_pairs": n, "shape": "{(d, j)} against {a cell inside (d, j), (d', j)} for every d' < d <= 4, j = 1..39, depth_max 2, 3, 6, all flag mixes"})
 }
 
+/// Consecutive-number cells: two disjoint cells (d, h) and (d', h + 1) with d' < d -- consecutive
+/// hash numbers at different depths, possible only inside the first cell of base cell 0 -- against
+/// the coarse cell (da, 0) that contains both, with every flag mix, a third cell after them, and
+/// with the two cells in either operand.  (A shortcut testing `next.hash == hash + 1` without
+/// comparing the depths takes them for siblings.)
+pub fn consecutive_number_sweep(ctx: &Ctx, mode: Mode, total: &mut Part) -> Value {
+  let mut n = 0u64;
+  for dm in [3u8, 4, 5, 6] {
+    for dp in 1..dm {
+      for d in (dp + 1)..=dm {
+        for da in 0..dp {
+          let hmax = (1u64 << (2 * (dp - da) as u32)) - 2;
+          for h in 1..=hmax.min(21) {
+            if ctx.over_budget() {
+              total.caps.push(format!("wall budget {}s reached in the consecutive-number sweep", ctx.budget_s));
+              return json!({"search": "consecutive-number", "capped": true});
+            }
+            let mixes: &[(bool, bool, bool)] = if mode == Mode::Moc { &[(true, true, true)] } else { &[(true, true, true), (false, true, true), (false, false, true), (false, true, false), (true, false, false)] };
+            for &(fa, f1, f2) in mixes {
+              for with_third in [false, true] {
+                let a = Bm::new(da, vec![(da, 0, fa)]);
+                let mut eb = vec![(d, h, f1), (dp, h + 1, f2)];
+                if with_third {
+                  eb.push((dp, h + 3, true));
+                }
+                let b = Bm::new(dm, eb);
+                let (am, bm) = match (a.to_map(), b.to_map()) {
+                  (Ok(x), Ok(y)) => (x, y),
+                  _ => continue,
+                };
+                let (ai, bi) = (a.to_impl(), b.to_impl());
+                total.stratum("consecutive-number-cells", 2, 0);
+                n += 1;
+                for (x, xi, xm, y, yi, ym) in [(&a, &ai, &am, &b, &bi, &bm), (&b, &bi, &bm, &a, &ai, &am)] {
+                  for op in BIN_OPS {
+                    total.stratum("consecutive-number-cells", 0, 1);
+                    let (out, v) = transition(mode, op, x, xi, xm, Some((y, yi, ym)), total);
+                    if let Some(o) = out {
+                      total.outcome(hash64(&[o.entries.len() as u64, o.depth_max as u64, o.entries.last().map(|e| e.1).unwrap_or(0)]));
+                    }
+                    if let Some(v) = v {
+                      total.viol(v);
+                    }
+                  }
+                }
+                total.stratum("consecutive-number-cells", 0, 1);
+                if let (_, Some(v)) = transition(mode, Op::Not, &b, &bi, &bm, None, total) {
+                  total.viol(v);
+                }
+              }
+            }
+          }
+        }
+      }
+    }
+  }
+  json!({"search": "consecutive-number", "operand_pairs": n, "shape": "{(da, 0)} against {(d, h), (d', h + 1)[, (d', h + 3)]} for every da < d' < d <= depth_max in 3..=6, h = 1..21, all flag mixes"})
+}
+
 pub fn specs(mode: Mode, quick: bool) -> Vec<(UniverseSpec, usize)> {
   let partial = mode != Mode::Moc;
   let mut v = vec![];
@@ -797,6 +856,7 @@ pub fn run(ctx: &Ctx, mode: Mode) -> i32 {
   searches.push(cascade_sweep(ctx, mode, &mut total));
   searches.push(aligned_descendant_sweep(ctx, mode, &mut total));
   searches.push(same_number_sweep(ctx, mode, &mut total));
+  searches.push(consecutive_number_sweep(ctx, mode, &mut total));
   let mut extra = Map::new();
   extra.insert("searches".into(), json!(searches));
   let what = match mode {
